@@ -4,7 +4,7 @@ import BB.Model.ByteStream
 Line-protocol driver of the C14 model (ByteStream / CAS / AC services and the CAS client).
 
     reset
-    cfg <chunk> <maxmsg> <strictW> <strictR> <lenient> <trunccode> <trunctag>
+    cfg <chunk> <maxmsg> <strictW> <strictR> <lenient> <trunccode> <trunctag> <clientEOF>
     store <hash> <size> <hex> | acstore <hash> <size> <hex> <parses 0|1>
     fault put <code> <early 0|1> | fault get <code> | fault fm <code> | fault clear
     dec <hexin> <c|t|x> <hexout>              declare the decoder's behaviour on one input
@@ -211,12 +211,13 @@ def sections? (rest : List String) : Option (List (List String)) :=
 def step (s : S) (line : String) : S × String :=
   match words line with
   | ["reset"] => ({}, "ok")
-  | ["cfg", cs, mx, sw, sr, ln, tc, tt] =>
-    match nat? cs, int? mx, bool? sw, bool? sr, bool? ln, nat? tc with
-    | some cs, some mx, some sw, some sr, some ln, some tc =>
+  | ["cfg", cs, mx, sw, sr, ln, tc, tt, ce] =>
+    match nat? cs, int? mx, bool? sw, bool? sr, bool? ln, nat? tc, bool? ce with
+    | some cs, some mx, some sw, some sr, some ln, some tc, some ce =>
       if cs = 0 then (s, "bad-op") else
-      ({ s with cs := cs, maxMsg := mx, flags := { strictW := sw, strictR := sr, lenient := ln, truncErr := ⟨tc, tt⟩ } }, "ok")
-    | _, _, _, _, _, _ => (s, "bad-op")
+      ({ s with cs := cs, maxMsg := mx,
+                flags := { strictW := sw, strictR := sr, lenient := ln, truncErr := ⟨tc, tt⟩, clientEOF := ce } }, "ok")
+    | _, _, _, _, _, _, _ => (s, "bad-op")
   | ["store", h, sz, x] =>
     match digest? h sz, hexBytes? x with
     | some d, some b => ({ s with cas := s.cas.put d b }, "ok")
@@ -292,7 +293,7 @@ def step (s : S) (line : String) : S × String :=
     match bool? z, digest? h sz with
     | some z, some d =>
       let r := read idCodec s.flags s.cas (if z then .zstd else .identity) d 0 0 s.cs 0 s.getFault
-      (s, match clientGet idCodec s.flags d r with
+      (s, match clientGet idCodec s.flags s.cs d r with
         | .ok b => s!"ok {bytesHex b}"
         | .error e => s!"err {showErr e}")
     | _, _ => (s, "bad-op")
